@@ -2,6 +2,7 @@ package main
 
 import (
 	"go/constant"
+	"go/token"
 	"go/types"
 
 	"golang.org/x/tools/go/ssa"
@@ -92,6 +93,83 @@ type calleeKey struct {
 // mask that a success return of H may carry — virtual inlining of H's paths, so that a check moved
 // into a helper, including a disjunctive one, is decided exactly as if it were written in place.
 func (p *Prog) litMasks(l Lit, preds []Pred, depth int) []uint32 {
+	// a literal about a phi is a literal about one of its operands (each consistent operand is an
+	// alternative; a constant operand that contradicts the literal is no alternative at all)
+	if ms, ok := p.phiLitMasks(l, preds, depth, 0); ok {
+		return ms
+	}
+	return p.litMasks1(l, preds, depth)
+}
+
+func (p *Prog) phiLitMasks(l Lit, preds []Pred, depth, nest int) ([]uint32, bool) {
+	if nest > 3 {
+		return nil, false
+	}
+	var ph *ssa.Phi
+	isNilLit, wantNil := false, false
+	if x, isNil, ok := nilTest(l); ok {
+		if q, isPhi := x.(*ssa.Phi); isPhi {
+			ph, isNilLit, wantNil = q, true, isNil
+		}
+	} else if q, isPhi := l.V.(*ssa.Phi); isPhi && !l.Nil {
+		if bt, okb := q.Type().Underlying().(*types.Basic); okb && bt.Kind() == types.Bool {
+			ph = q
+		}
+	}
+	if ph == nil {
+		return nil, false
+	}
+	var direct uint32
+	for i, q := range preds {
+		if q(l) {
+			direct |= 1 << uint(i)
+		}
+	}
+	set := map[uint32]bool{}
+	for _, e := range ph.Edges {
+		var el Lit
+		if isNilLit {
+			if c, isC := e.(*ssa.Const); isC {
+				if c.IsNil() == wantNil {
+					set[direct] = true
+				}
+				continue
+			}
+			if !wantNil && false {
+				continue
+			}
+			if wantNil && isErrorType(e.Type()) && neverNilErr(e, 2) {
+				continue
+			}
+			el = Lit{V: e, Nil: true, Pos: wantNil}
+		} else {
+			if c, isC := e.(*ssa.Const); isC {
+				if c.Value != nil && c.Value.Kind() == constant.Bool && constant.BoolVal(c.Value) == l.Pos {
+					set[direct] = true
+				}
+				continue
+			}
+			ev, pos := stripNot(e, l.Pos)
+			el = Lit{V: ev, Pos: pos}
+		}
+		var ms []uint32
+		if sub, ok := p.phiLitMasks(el, preds, depth, nest+1); ok {
+			ms = sub
+		} else {
+			ms = p.litMasks1(el, preds, depth)
+		}
+		for _, m := range ms {
+			set[m|direct] = true
+		}
+	}
+	var res []uint32
+	for m := range set {
+		res = append(res, m)
+	}
+	return res, true
+}
+
+func (p *Prog) litMasks1(l Lit, preds []Pred, depth int) []uint32 {
 	var direct uint32
 	for i, q := range preds {
 		if q(l) {
@@ -185,7 +263,7 @@ func (p *Prog) litMasks(l Lit, preds []Pred, depth int) []uint32 {
 
 // edgeAdds: the alternative atom sets added by traversing an edge with literal l.
 func (pi *pathInfo) edgeAdds(p *Prog, l Lit) []uint64 {
-	key := litKey{l.V, l.Pos}
+	key := litKey{l.V, l.Pos, l.Nil}
 	if r, ok := pi.addMemo[key]; ok {
 		return r
 	}
@@ -213,6 +291,7 @@ func (pi *pathInfo) edgeAdds(p *Prog, l Lit) []uint64 {
 type litKey struct {
 	v   ssa.Value
 	pos bool
+	nil bool
 }
 
 func (p *Prog) pathMasksD(fn *ssa.Function, preds []Pred, depth int) *pathInfo {
@@ -236,22 +315,40 @@ func (p *Prog) pathMasksD(fn *ssa.Function, preds []Pred, depth int) *pathInfo {
 					continue
 				}
 				seenCond[v] = true
-				var any uint32
-				for _, pol := range []bool{true, false} {
-					for _, pm := range p.litMasks(Lit{V: v, Pos: pol}, preds, depth) {
-						any |= pm
+				register := func(v ssa.Value, lits []Lit) {
+					var any uint32
+					for _, l := range lits {
+						for _, pm := range p.litMasks(l, preds, depth) {
+							any |= pm
+						}
+					}
+					for i := range preds {
+						if any&(1<<uint(i)) != 0 {
+							if len(pi.atomPred) >= 61 {
+								panic("pathMasks: more than 61 (predicate, condition) atoms in " + fn.String())
+							}
+							bit := uint64(1) << uint(len(pi.atomPred))
+							pi.atomPred = append(pi.atomPred, i)
+							pi.atomVal = append(pi.atomVal, v)
+							if in, ok := v.(ssa.Instruction); ok && in.Block() != nil {
+								pi.kill[in.Block().Index] |= bit
+							}
+						}
 					}
 				}
-				for i := range preds {
-					if any&(1<<uint(i)) != 0 {
-						if len(pi.atomPred) >= 63 {
-							panic("pathMasks: more than 63 (predicate, condition) atoms in " + fn.String())
+				register(v, []Lit{{V: v, Pos: true}, {V: v, Pos: false}})
+				// a block that only branches on a phi it defines: the literal is also one about the
+				// phi operand of the edge through which the block was entered
+				if pb := phiBranchOf(b); pb != nil {
+					for _, e := range pb.phi.Edges {
+						if _, isC := e.(*ssa.Const); isC || seenCond[e] {
+							continue
 						}
-						bit := uint64(1) << uint(len(pi.atomPred))
-						pi.atomPred = append(pi.atomPred, i)
-						pi.atomVal = append(pi.atomVal, v)
-						if in, ok := v.(ssa.Instruction); ok && in.Block() != nil {
-							pi.kill[in.Block().Index] |= bit
+						seenCond[e] = true
+						l0, ok0 := pb.lit(e, 0)
+						l1, ok1 := pb.lit(e, 1)
+						if ok0 && ok1 {
+							register(e, []Lit{l0, l1})
 						}
 					}
 				}
@@ -261,28 +358,93 @@ func (p *Prog) pathMasksD(fn *ssa.Function, preds []Pred, depth int) *pathInfo {
 	pi.in[0][0] = true
 	work := []*ssa.BasicBlock{fn.Blocks[0]}
 	inWork := map[*ssa.BasicBlock]bool{fn.Blocks[0]: true}
+	noExit := forceBit[0] | forceBit[1]
+	put := func(s *ssa.BasicBlock, nm uint64) {
+		if !pi.in[s.Index][nm] {
+			pi.in[s.Index][nm] = true
+			if !inWork[s] {
+				inWork[s] = true
+				work = append(work, s)
+			}
+		}
+	}
 	for len(work) > 0 {
 		b := work[0]
 		work = work[1:]
 		inWork[b] = false
-		for _, s := range b.Succs {
+		for si, s := range b.Succs {
 			adds := []uint64{0}
 			if l, ok := edgeLit(b, s); ok {
 				adds = pi.edgeAdds(p, l)
 			}
-			changed := false
-			for m := range pi.in[b.Index] {
-				for _, add := range adds {
-					nm := (m &^ pi.kill[b.Index]) | add
-					if !pi.in[s.Index][nm] {
-						pi.in[s.Index][nm] = true
-						changed = true
+			// jump threading: when the value s branches on is a phi whose operand on this edge is a
+			// constant (or decided by a test that dominates the edge), the paths arriving through
+			// this edge leave s through the decided successor only
+			var force uint64
+			if k, ok := decidedSucc(b, s); ok {
+				force = forceBit[k]
+			}
+			// otherwise, if s does nothing but branch on that phi, the paths through this edge are
+			// continued directly into s's successors with the literal about the phi OPERAND
+			var pb *phiBranch
+			var opnd ssa.Value
+			if force == 0 {
+				if pb = phiBranchOf(s); pb != nil {
+					pidx := -1
+					for i, pr := range s.Preds {
+						if pr == b {
+							if pidx >= 0 {
+								pidx = -2
+								break
+							}
+							pidx = i
+						}
+					}
+					if pidx >= 0 {
+						opnd = pb.phi.Edges[pidx]
+					} else {
+						pb = nil
 					}
 				}
 			}
-			if changed && !inWork[s] {
-				inWork[s] = true
-				work = append(work, s)
+			for m := range pi.in[b.Index] {
+				if m&noExit == noExit {
+					continue
+				}
+				if m&forceBit[0] != 0 && si != 0 && len(b.Succs) == 2 {
+					continue
+				}
+				if m&forceBit[1] != 0 && si != 1 && len(b.Succs) == 2 {
+					continue
+				}
+				m &^= noExit
+				for _, add := range adds {
+					nm := (m &^ pi.kill[b.Index]) | add
+					if pb == nil {
+						put(s, nm|force)
+						continue
+					}
+					put(s, nm|noExit) // visible to queries inside s, not propagated from s
+					for k, t := range s.Succs {
+						adds2 := []uint64{0}
+						if l, ok := pb.lit(opnd, k); ok {
+							adds2 = pi.edgeAdds(p, l)
+						}
+						var orig uint64
+						if l, ok := edgeLit(s, t); ok {
+							for _, a := range pi.edgeAdds(p, l) {
+								orig |= a
+							}
+						}
+						var f2 uint64
+						if k2, ok := decidedSucc(s, t); ok {
+							f2 = forceBit[k2]
+						}
+						for _, a2 := range adds2 {
+							put(t, ((nm&^pi.kill[s.Index])|a2|orig)|f2)
+						}
+					}
+				}
 			}
 		}
 	}
@@ -634,4 +796,167 @@ func innermostLoop(loops []*loopInfo, b *ssa.BasicBlock) *loopInfo {
 		}
 	}
 	return best
+}
+
+// forceBit: the two top bits of a path mask record "the paths with this mask leave the current
+// block through successor 0 / 1 only" (jump threading over phi operands that are constants).
+var forceBit = [2]uint64{1 << 62, 1 << 63}
+
+// decidedSucc: block s ends with an If on a value that, for the paths entering through pred->s, is
+// decided by a constant phi operand. Returns the index of the successor taken.
+func decidedSucc(pred, s *ssa.BasicBlock) (int, bool) {
+	n := len(s.Instrs)
+	if n == 0 || len(s.Succs) != 2 {
+		return 0, false
+	}
+	iff, ok := s.Instrs[n-1].(*ssa.If)
+	if !ok {
+		return 0, false
+	}
+	pidx := -1
+	for i, p := range s.Preds {
+		if p == pred {
+			if pidx >= 0 {
+				return 0, false
+			}
+			pidx = i
+		}
+	}
+	if pidx < 0 {
+		return 0, false
+	}
+	v, pos := stripNot(iff.Cond, true)
+	edgeVal := func(x ssa.Value) (ssa.Value, bool) {
+		if ph, ok := x.(*ssa.Phi); ok && ph.Block() == s && pidx < len(ph.Edges) {
+			return ph.Edges[pidx], true
+		}
+		return nil, false
+	}
+	truth := func(t bool) (int, bool) {
+		if t == pos {
+			return 0, true
+		}
+		return 1, true
+	}
+	// boolean phi used directly
+	if ev, ok := edgeVal(v); ok {
+		if c, isC := ev.(*ssa.Const); isC && c.Value != nil && c.Value.Kind() == constant.Bool {
+			return truth(constant.BoolVal(c.Value))
+		}
+		return 0, false
+	}
+	bo, ok := v.(*ssa.BinOp)
+	if !ok || (bo.Op != token.EQL && bo.Op != token.NEQ) || bo.Block() != s {
+		return 0, false
+	}
+	var ev ssa.Value
+	var other ssa.Value
+	if e, ok := edgeVal(bo.X); ok {
+		ev, other = e, bo.Y
+	} else if e, ok := edgeVal(bo.Y); ok {
+		ev, other = e, bo.X
+	} else {
+		return 0, false
+	}
+	oc, ok := other.(*ssa.Const)
+	if !ok {
+		return 0, false
+	}
+	eq := bo.Op == token.EQL
+	if oc.IsNil() {
+		if c, isC := ev.(*ssa.Const); isC && c.IsNil() {
+			return truth(eq)
+		}
+		if isErrorType(ev.Type()) && neverNilErr(ev, 2) {
+			return truth(!eq)
+		}
+		if isNil, known := knownNilOnEdge(pred, ev); known {
+			return truth(isNil == eq)
+		}
+		return 0, false
+	}
+	if c, isC := ev.(*ssa.Const); isC && c.Value != nil && oc.Value != nil {
+		return truth(constant.Compare(c.Value, token.EQL, oc.Value) == eq)
+	}
+	return 0, false
+}
+
+// phiBranch: a block that does nothing but branch on a phi it defines — `if phi`, `if phi == nil`,
+// `if phi != nil` (the shape a helper's result takes once the helper is inlined, or an `err`
+// variable assigned on several paths and tested after the join).
+type phiBranch struct {
+	phi   *ssa.Phi
+	isNil bool // nil comparison (else: boolean phi)
+	eq    bool // the comparison is ==
+	pos   bool // polarity of the If condition w.r.t. the comparison / the phi
+}
+
+func phiBranchOf(s *ssa.BasicBlock) *phiBranch {
+	n := len(s.Instrs)
+	if n == 0 || len(s.Succs) != 2 {
+		return nil
+	}
+	iff, ok := s.Instrs[n-1].(*ssa.If)
+	if !ok {
+		return nil
+	}
+	for _, in := range s.Instrs[:n-1] {
+		switch x := in.(type) {
+		case *ssa.Phi, *ssa.DebugRef:
+		case *ssa.BinOp:
+			if x.Op != token.EQL && x.Op != token.NEQ {
+				return nil
+			}
+		case *ssa.UnOp:
+			if x.Op != token.NOT {
+				return nil
+			}
+		default:
+			return nil
+		}
+	}
+	v, pos := stripNot(iff.Cond, true)
+	if ph, ok := v.(*ssa.Phi); ok && ph.Block() == s {
+		return &phiBranch{phi: ph, pos: pos}
+	}
+	bo, ok := v.(*ssa.BinOp)
+	if !ok || bo.Block() != s || (bo.Op != token.EQL && bo.Op != token.NEQ) {
+		return nil
+	}
+	var ph *ssa.Phi
+	if x, ok := bo.X.(*ssa.Phi); ok && x.Block() == s && isNilConst(bo.Y) {
+		ph = x
+	} else if y, ok := bo.Y.(*ssa.Phi); ok && y.Block() == s && isNilConst(bo.X) {
+		ph = y
+	}
+	if ph == nil {
+		return nil
+	}
+	return &phiBranch{phi: ph, isNil: true, eq: bo.Op == token.EQL, pos: pos}
+}
+
+// lit: the literal about phi operand e that holds when the block is left through successor k.
+func (pb *phiBranch) lit(e ssa.Value, k int) (Lit, bool) {
+	if e == nil {
+		return Lit{}, false
+	}
+	vTrue := (k == 0) == pb.pos
+	if !pb.isNil {
+		return Lit{V: e, Pos: vTrue}, true
+	}
+	return Lit{V: e, Nil: true, Pos: vTrue == pb.eq}, true
+}
+
+// knownNilOnEdge: the nil-ness of e is decided by a test on the single-predecessor chain above blk.
+func knownNilOnEdge(blk *ssa.BasicBlock, e ssa.Value) (bool, bool) {
+	for i := 0; i < 8 && blk != nil && len(blk.Preds) == 1; i++ {
+		pp := blk.Preds[0]
+		if l, ok := edgeLit(pp, blk); ok {
+			if x, isNil, ok := nilTest(l); ok && (x == e || unwrap(x) == unwrap(e)) {
+				return isNil, true
+			}
+		}
+		blk = pp
+	}
+	return false, false
 }
